@@ -40,7 +40,7 @@ SlackMs == cfg.ttlMs * 3 + 2000
 
 PlanOf(o) == LET S == { i \in DOMAIN cfg.ops : cfg.ops[i].o = o } IN
              IF S = {} THEN [o |-> o, kind |-> "", fault |-> [cut |-> -1, hold |-> FALSE, leg |-> 0], cancelAfterMs |-> 0, deadlineMs |-> 0, expectCtx |-> FALSE,
-                                 mustSucceed |-> FALSE, all |-> FALSE, names |-> << >>]
+                                 mustSucceed |-> FALSE, all |-> FALSE, names |-> << >>, parts |-> << >>]
              ELSE cfg.ops[CHOOSE i \in S : TRUE]
 
 \* the version ranges broker b advertised for an api: <<min, max>> or << >>
@@ -130,7 +130,10 @@ EndBad(e) ==
       ctxEnded == o \in DOMAIN cancelled \/ plan.deadlineMs > 0
       lateBad == ctxEnded /\ e.sinceCancelMs > 5000
       \* the response was held back until after the call returned: only the context can have ended the call
-      ctxBad == ctxEnded /\ (plan.fault.hold \/ plan.expectCtx) /\ e.result # "ctxerr"
+      \* (a request split into several legs may instead return what the answered legs brought, the partitions of the
+      \* others marked with an error: Client.ListOffsets over several partitions)
+      partial == plan.kind = "listoffsets" /\ Len(plan.parts) > 1 /\ e.result = "response" /\ e.code # 0
+      ctxBad == ctxEnded /\ (plan.fault.hold \/ plan.expectCtx) /\ e.result # "ctxerr" /\ ~partial
       k == [tid |-> tid, o |-> o, kind |-> e.kind, result |-> e.result, code |-> e.code]
   IN [bad EXCEPT !.filter = IF filterBad THEN @ \cup {k} ELSE @,
                  !.own = IF ownBad THEN @ \cup {k} ELSE @,
